@@ -21,6 +21,17 @@ claim("C02", "model_checking",
       "TLA+ contract spec (Sched.tla) model-checked by TLC over artefacts exported from the real "
       "builder; inputs are TLC-generated behaviours of ProgGen.tla replayed into the code")
 
+claim("C04", "model_checking",
+      "as-coded model of ExecutionController (all DAGs, guard valuations, request scripts, cut points and "
+      "every iteration order of the unordered containers, N<=4/5) model-checked against the visit "
+      "contract; callback sequences recorded from the real controller on enumerated and random graphs "
+      "validated by TLC against the same contract",
+      "trusted: the recording target and the Python-side graph enumeration; real set iteration orders "
+      "are only sampled (id spellings), all orders are covered in the as-coded model, whose conformance "
+      "with the recorded plans is checked and reported as drift",
+      "TLA+ contract spec (ControllerBase.tla) + as-coded spec (Controller.tla) model-checked by TLC; "
+      "trace validation of the real controller's callbacks (TraceController.tla)")
+
 NOT_YET = "check not built yet (work in progress, see DESIGN.md section 11)"
 NOT_APPLICABLE = {}
 
